@@ -3,6 +3,8 @@
 #include <stdarg.h>
 #include <unistd.h>
 #include <signal.h>
+#include <fcntl.h>
+#include <sys/mman.h>
 #include <openssl/hmac.h>
 #include <openssl/bn.h>
 #include <openssl/ec.h>
@@ -12,6 +14,7 @@
 #include <openssl/param_build.h>
 #include <openssl/rand.h>
 
+static void vh_case_map(void);
 /* ------------------------------------------------------------------ args */
 void vh_parse_args(int argc, char **argv, vh_args_t *a)
 {
@@ -34,20 +37,44 @@ void vh_parse_args(int argc, char **argv, vh_args_t *a)
 	a->thorough = !strcmp(a->tier, "thorough");
 	if (a->nshards < 1) a->nshards = 1;
 	vh_install_death_handler();
-	setvbuf(stdout, NULL, _IOFBF, 1 << 16);
+	/* line buffered: a sanitizer that kills the process without running our death callback (gcc's separate
+	 * libubsan) must not take already judged events with it */
+	setvbuf(stdout, NULL, _IOLBF, 1 << 16);
+	vh_case_map();
 }
 
 /* ------------------------------------------------------- crash isolation */
-static char vh_case_buf[4096];
+static char vh_case_static[4096];
+static char *vh_case_buf = vh_case_static;	/* points into a MAP_SHARED file when VH_CASE_FILE is set */
 static long vh_case_idx = -1;
+#define VH_CASE_CAP 4000
+
+static void vh_case_map(void)
+{
+	const char *path = getenv("VH_CASE_FILE");
+	int fd;
+	void *m;
+	if (!path || !path[0])
+		return;
+	fd = open(path, O_RDWR | O_CREAT | O_TRUNC, 0644);
+	if (fd < 0 || ftruncate(fd, 4096) < 0)
+		return;
+	m = mmap(NULL, 4096, PROT_READ | PROT_WRITE, MAP_SHARED, fd, 0);
+	close(fd);
+	if (m != MAP_FAILED)
+		vh_case_buf = m;
+}
 static volatile int vh_dying;
 
 void vh_case_begin(long idx, const char *fmt, ...)
 {
 	va_list ap;
+	int n;
 	vh_case_idx = idx;
+	/* layout: "<idx>\n<json fields>\0" so that the orchestrator can read the case in flight from the mapped file */
+	n = snprintf(vh_case_buf, 32, "%ld\n", idx);
 	va_start(ap, fmt);
-	vsnprintf(vh_case_buf, sizeof(vh_case_buf), fmt, ap);
+	vsnprintf(vh_case_buf + n, VH_CASE_CAP - (size_t)n, fmt, ap);
 	va_end(ap);
 }
 
@@ -59,8 +86,11 @@ static void vh_death(void)
 		return;
 	vh_dying = 1;
 	/* vh_case_buf holds a JSON object body fragment (without braces) or is empty */
-	n = snprintf(buf, sizeof(buf), "\n@@CRASH {\"idx\":%ld%s%s}\n", vh_case_idx,
-		     vh_case_buf[0] ? "," : "", vh_case_buf);
+	{
+		const char *body = strchr(vh_case_buf, '\n');
+		body = body ? body + 1 : "";
+		n = snprintf(buf, sizeof(buf), "\n@@CRASH {\"idx\":%ld%s%s}\n", vh_case_idx, body[0] ? "," : "", body);
+	}
 	if (n > 0) {
 		ssize_t w = write(2, buf, (size_t)n);
 		(void)w;
